@@ -31,6 +31,11 @@ func (s *SyslogIngester) Ingest(ctx context.Context) error {
 }
 
 func (s *SyslogIngester) Process(ctx context.Context, line string) error {
+	// The named pipe ingester hands over each line together with
+	// the newline that terminates it. The newline frames the record,
+	// it is not part of the sshd message.
+	line = strings.TrimSuffix(line, "\n")
+
 	sm := s.ParseSyslogMessage(line)
 	return s.SshdProcessor.ProcessSshdLogEntry(ctx, sm)
 }
